@@ -47,7 +47,7 @@ def fails(op, a, m):
     if cls == "spec":
         return m != "n/a" and a != m
     if cls == "judge":
-        return m != "ok"
+        return m not in ("ok", "n/a")
     if cls == "prop":
         return a != "ok"
     return a != m
